@@ -654,6 +654,83 @@ static void run_gen_o2(const std::string& op, const std::vector<unsigned>& by, u
 		unsigned(b->mHashData.shortHashes[2]), unsigned(b->mHashData.hashProbes[0]), unsigned(b->mHashData.hashProbes[1]), unsigned(b->mHashData.hashProbes[2]));
 }
 
+// ---- the same for the generated BucketLimP4<.., 4, .., true>::AddCrt (Gen_LimP4_exn.v): bytes AND pointer state set directly (the
+//      pointer is a real block of the pool `mpi`), failure = the memory manager under the pools throws (f = 1) or the creator throws
+//      (f = 2).  Output: completed flag, every short-hash / probe byte, the state bits, "pointer changed", and the number of blocks
+//      the four pools have handed out (one per non-empty bucket: a block allocated by the BucketMemory guard was given back). -----------
+static bool g_p4_fail_alloc = false; static long g_fail_live = 0;
+template<size_t bits> class FailMM      // NOTE: momo ignores this member (MemManagerProxy matches decltype(..) == size_t, a `static const size_t`
+                                        // has type const size_t), so hashCount is 4 for every manager unless MOMO_MEM_MANAGER_PTR_USEFUL_BIT_COUNT is set
+{
+public:
+	static const size_t ptrUsefulBitCount = bits;
+	explicit FailMM() noexcept {}
+	FailMM(FailMM&&) noexcept {}
+	FailMM(const FailMM&) noexcept {}
+	~FailMM() noexcept {}
+	FailMM& operator=(const FailMM&) = delete;
+	void* Allocate(size_t size) { if (g_p4_fail_alloc) throw std::bad_alloc(); ++g_fail_live; return std::malloc(size); }
+	void Deallocate(void* ptr, size_t /*size*/) noexcept { --g_fail_live; std::free(ptr); }
+	bool IsEqual(const FailMM&) const noexcept { return true; }
+};
+template<typename FailMM> static void run_gen_p4(const std::vector<unsigned>& by, uint64_t hash, unsigned fmode, size_t mpi, size_t logbc, size_t probe, bool nonnull)
+{
+	typedef momo::HashSetItemTraits<uint64_t, FailMM> IT;
+	typedef momo::internal::BucketLimP4<IT, 4, momo::MemPoolParams<>, true> B;
+	alignas(B) static unsigned char buf[sizeof(B)];
+	B* b = ::new(static_cast<void*>(buf)) B();
+	FailMM mm; typename B::Params params(mm);
+	g_p4_fail_alloc = false;
+	uint64_t* items = nullptr;
+	if (nonnull)
+		switch (mpi)
+		{
+		case 1: items = params.template GetMemPool<1>().template Allocate<uint64_t>(); break;
+		case 2: items = params.template GetMemPool<2>().template Allocate<uint64_t>(); break;
+		case 3: items = params.template GetMemPool<3>().template Allocate<uint64_t>(); break;
+		default: items = params.template GetMemPool<4>().template Allocate<uint64_t>(); break;
+		}
+	for (size_t i = 0; i < B::hashCount; ++i) b->mShortHashes[i] = uint8_t(by[i]);
+	b->mPtrState.Set(items, uint8_t(mpi - 1));
+	int completed = 1;
+	g_p4_fail_alloc = (fmode == 1);
+	try { b->AddCrt(params, [fmode] (uint64_t* p) { if (fmode == 2) throw 1; *p = 0; }, size_t(hash), logbc, probe); }
+	catch (int) { completed = 0; }
+	catch (const std::bad_alloc&) { completed = 0; }
+	g_p4_fail_alloc = false;
+	size_t blocks = params.template GetMemPool<1>().GetAllocateCount() + params.template GetMemPool<2>().GetAllocateCount()
+		+ params.template GetMemPool<3>().GetAllocateCount() + params.template GetMemPool<4>().GetAllocateCount();
+	printf("hc=%zu min=%zu %d", size_t(B::hashCount), size_t(B::minMemPoolIndex), completed);
+	for (size_t i = 0; i < B::hashCount; ++i) printf(" %u", unsigned(b->mShortHashes[i]));
+	printf(" st=%u chg=%d blocks=%zu\n", unsigned(b->mPtrState.GetState()), int(b->mPtrState.GetPointer() != items), blocks);
+	b->Clear(params);
+}
+
+// ---- generated Array<.., ArraySettings<4>>::Data::Reset / pvReset (Gen_ArrReset_exn.v): a real array made external (capacity cap0, cnt0
+//      items), then the REAL Data::Reset(capacity, count, creator) with a creator that writes w items of value v into the buffer it is given
+//      (for capacity <= 4 that is the internal buffer, which shares a union with mCapacity) and then throws (f = 1); f = 2: the memory
+//      manager throws.  Output: completed, where mItems points (same / internal / new), mCount, the capacity the array reports, live blocks.
+static void run_gen_rst(unsigned f, size_t cap0, size_t cnt0, size_t capacity, size_t count, unsigned w, uint64_t v)
+{
+	typedef FailMM<64> MM;
+	typedef momo::Array<uint64_t, MM, momo::ArrayItemTraits<uint64_t, MM>, momo::ArraySettings<4>> Arr;
+	g_p4_fail_alloc = false; g_fail_live = 0;
+	{
+		Arr a;
+		a.mData.Reset(cap0, 0, [] (uint64_t*) {}); a.SetCount(cnt0, uint64_t(5));   // exactly cap0, external (cap0 > 4)
+		const uint64_t* before = a.mData.mItems; size_t realCap0 = a.GetCapacity();
+		bool wasInternal = a.mData.pvIsInternal();
+		int completed = 1;
+		g_p4_fail_alloc = (f == 2);
+		try { a.mData.Reset(capacity, count, [f, w, v] (uint64_t* p) { for (unsigned i = 0; i < w; ++i) p[i] = v; if (f == 1) throw 1; }); }
+		catch (int) { completed = 0; }
+		catch (const std::bad_alloc&) { completed = 0; }
+		g_p4_fail_alloc = false;
+		const char* where = a.mData.pvIsInternal() ? "internal" : (a.mData.mItems == before ? "same" : "new");
+		printf("cap0=%zu wasint=%d %d %s cnt=%zu cap=%zu blocks=%ld\n", realCap0, int(wasInternal), completed, where, a.GetCount(), a.GetCapacity(), g_fail_live);
+	}
+}
+
 int main()
 {
 	g_arena = static_cast<char*>(std::malloc(ARENA));
@@ -662,6 +739,20 @@ int main()
 	{
 		std::istringstream is(line); std::string mech, cat; size_t n = 0; long k = -1;
 		is >> mech >> cat >> n >> k;
+		if (mech == "genrst")
+		{	// genrst - 0 0 rst <f 0|1|2> <cap0> <cnt0> <capacity> <count> <w> <v>
+			std::string op; unsigned f = 0, w = 0; size_t cap0 = 0, cnt0 = 0, capacity = 0, count = 0; uint64_t v = 0;
+			is >> op >> f >> cap0 >> cnt0 >> capacity >> count >> w >> v;
+			run_gen_rst(f, cap0, cnt0, capacity, count, w, v); fflush(stdout); continue;
+		}
+		if (mech == "genp4")
+		{	// genp4 - 0 <hashCount 4|6> add <fmode 0|1|2> <hash> <mpi> <logbc> <probe> <nonnull 0|1> <bytes...>
+			std::string op; unsigned f = 0, nn = 0; uint64_t hash = 0; size_t mpi = 0, logbc = 0, probe = 0; is >> op >> f >> hash >> mpi >> logbc >> probe >> nn;
+			std::vector<unsigned> by; unsigned x; while (is >> x) by.push_back(x);
+			by.resize(8, 255);
+			if (k == 4) run_gen_p4<FailMM<64>>(by, hash, f, mpi, logbc, probe, nn != 0); else run_gen_p4<FailMM<48>>(by, hash, f, mpi, logbc, probe, nn != 0);
+			fflush(stdout); continue;
+		}
 		if (mech == "genn1" || mech == "geno2")
 		{	// gen?? <op add|rem> <fails 0|1> <hash> <index> <logbc> <probe> <bytes...>     (cat / n / k fields are unused: "-" 0 0)
 			std::string op; unsigned f = 0; uint64_t hash = 0; size_t index = 0, logbc = 0, probe = 0; is >> op >> f >> hash >> index >> logbc >> probe;
